@@ -550,6 +550,30 @@ func disGenerate(r *gen.Rand, names []string) *disGen {
 			}
 		}
 	}
+	if r.Intn(5) == 0 && g.Scope != "in-inner" && g.Scope != "in-head" {
+		// a literal const in scope and the reference inside a binary expression with it: the compiler
+		// then re-runs the optimizer on that expression with its live symbol table
+		head = append(head, "const k9 = 1")
+		s = "r = (" + e + ") == k9"
+		g.stmtKind = "assign-constbin"
+		def, callStmt = disPlace(g.inner, s)
+	}
+	if r.Intn(3) == 0 {
+		// the script shadows some OTHER builtin that is not disabled (the optimizer then takes the
+		// path that merges shadowed names and host-disabled names into the evaluator's table)
+		for _, u := range []string{"error", "cap", "chars", "isMap", "sortReverse", "copy"} {
+			inD := u == t
+			for _, d := range g.D {
+				if d == u {
+					inD = true
+				}
+			}
+			if !inD {
+				head = append(head, u+" := 1")
+				break
+			}
+		}
+	}
 	if isEval && r.Bool() {
 		head = append(head, "r = g0(a0)")
 	}
@@ -659,10 +683,21 @@ func disGenerate(r *gen.Rand, names []string) *disGen {
 		var l []string
 		l = append(l, mainPre...)
 		l = append(l, mainHead...)
-		if r.Bool() {
+		// the import expression at the top level, or inside a function / block / loop (the compiler is
+		// then in a nested scope when it creates the module's symbol table)
+		switch r.Intn(6) {
+		case 0:
 			l = append(l, `mm := import("`+mod+`")`, "return mm")
-		} else {
+		case 1:
 			l = append(l, `return import("`+mod+`")`)
+		case 2:
+			l = append(l, `imp9 := func() {`, `  return import("`+mod+`")`, `}`, "return imp9()")
+		case 3:
+			l = append(l, "c9 := 1", "if c9 {", `  return import("`+mod+`")`, "}", "return 0")
+		case 4:
+			l = append(l, "for i9 := 0; i9 < 1; i9++ {", `  return import("`+mod+`")`, "}", "return 0")
+		default:
+			l = append(l, `imp9 := func() {`, `  return func() { return import("`+mod+`") }`, `}`, "return imp9()()")
 		}
 		return strings.Join(l, "\n")
 	}
@@ -678,7 +713,11 @@ func disGenerate(r *gen.Rand, names []string) *disGen {
 	case "mod2":
 		g.Mode = "compile"
 		g.Modules["m2"] = body
-		g.Modules["m1"] = "q := 1\nm2v := import(\"m2\")\nreturn [q, m2v]"
+		if r.Bool() {
+			g.Modules["m1"] = "q := 1\nm2v := import(\"m2\")\nreturn [q, m2v]"
+		} else {
+			g.Modules["m1"] = "q := 1\nlazy := func() {\n  return import(\"m2\")\n}\nreturn [q, lazy()]"
+		}
 		g.Fragments = []string{importer("m1")}
 	case "eval2":
 		g.Mode = "eval"
